@@ -147,3 +147,18 @@ Fixpoint run_chain (lim : limit) (ks : list nat) : outcome * list (N * nat) :=
       | Completed => let '(o', l) := run_chain lim r in (o', (v, n) :: l)
       end
   end.
+
+(* ---------------------------------------------------------------------------------------------
+   Whole histories again: did any _synchronize_workflows call of the history raise?  (After the first raise the real run
+   is aborted; the rest of the list is then irrelevant.) *)
+Fixpoint raised_in (lim : limit) (vs : versions) (h : list rollback) : bool :=
+  match h with
+  | [] => false
+  | rb :: r => let '(vs', b) := synchronize lim (ensure_requests vs rb) rb in b || raised_in lim vs' r
+  end.
+
+(* how often job j is asked to roll back (as a request that is not recovering) *)
+Definition asked (j : string) (rb : rollback) : nat :=
+  length (filter (fun jb => String.eqb (fst jb) j && negb (snd jb)) rb).
+Definition asked_in (j : string) (h : list rollback) : nat :=
+  fold_right (fun rb n => asked j rb + n)%nat 0%nat h.
